@@ -369,6 +369,7 @@ func onlyLoadedFrom(v ssa.Value, depth int) bool {
 // FieldAddr / IndexAddr / Load / Store(addr) / DebugRef.
 func (c *Ctx) computeLocalExact() {
 	c.localExact = map[*ssa.Alloc]bool{}
+	curWrittenOnce := false
 	var ok func(v ssa.Value) bool
 	ok = func(v ssa.Value) bool {
 		refs := v.Referrers()
@@ -397,6 +398,12 @@ func (c *Ctx) computeLocalExact() {
 					return false
 				}
 			case *ssa.DebugRef:
+			case *ssa.Slice:
+				// slicing an array inside a variable that is written once and then only read:
+				// the slice is modelled as a snapshot of the array (see the Slice instruction)
+				if !curWrittenOnce || x.X != v {
+					return false
+				}
 			case *ssa.MakeClosure:
 				// captured by a closure that only reads the variable
 				cf, _ := x.Fn.(*ssa.Function)
@@ -417,6 +424,7 @@ func (c *Ctx) computeLocalExact() {
 	for _, b := range c.fn.Blocks {
 		for _, in := range b.Instrs {
 			if a, isA := in.(*ssa.Alloc); isA {
+				curWrittenOnce = allocWrittenOnce(a)
 				c.localExact[a] = ok(a)
 			}
 		}
